@@ -156,6 +156,13 @@ int verif_case(const uint8_t *tape, size_t tlen, Info *info) {
     bool clash = false;
     for (auto &o : cs.reqs) if (o.token == r.token) clash = true;
     if (clash) { r.token.assign(2, (uint8_t)i); r.token[1] = 0xEE; }
+    // (the replacement can coincide with an earlier random token as well)
+    for (unsigned bump = 0; bump < 16; bump++) {
+      bool again = false;
+      for (auto &o : cs.reqs) if (o.token == r.token) again = true;
+      if (!again) break;
+      r.token = {(uint8_t)i, 0xEE, (uint8_t)(0x70 + bump), 0x5A};
+    }
     r.con = t.pick({1, 4}) != 0;
     r.code = (uint8_t)t.range(1, 4);
     r.style = (int)t.pick({4, 3, 2, 2, 1});
